@@ -41,6 +41,9 @@ def gen_cases(tier, seed):
         for ci, cell in enumerate(["afm_cr", "afm_nio", "fm_fe_tet"]):
             cases.append({"kind": "structure", "mode": mode, "crystal": {"name": cell, "order": ["asis", "random", "interleave"][(ci + len(cases)) % 3], "order_seed": int(rng.integers(100))},
                           "displaced": bool(ci == 1), "magnetic": True, "_cost": 2})
+    for i in range(6 if tier == "quick" else 30):
+        cases.append({"kind": "fleur_input", "crystal": {"name": ["rocksalt", "tric3", "rutile", "wurtzite", "cscl", "tric2"][i % 6], "order": ["asis", "interleave"][i % 2], "order_seed": 0},
+                      "factor": bool(i % 3 != 2), "shift": bool(i % 3 != 0), "seed": int(rng.integers(10 ** 6)), "_cost": 2})
     cells = ["tric_ilv", "tric3", "tric2", "rutile", "rocksalt", "wurtzite", "perovskite", "mono_p", "zincblende", "fluorite", "hcp"]
     reps = 1 if tier == "quick" else 6
     for mode in MODES:
@@ -387,6 +390,71 @@ def run_case(c):
             obs["iface_" + mode] = 1
             return {"viol": viol, "nontrivial": bool(len(cell) >= 2), "key": key, "obs": obs, "evals": len(targets),
                     "sample": {"kind": "structure", "interface": mode, "crystal": c["crystal"], "symbols": sa[:8], "interleaved": interleaved, "targets": [t[0] for t in targets]}}
+
+        if c["kind"] == "fleur_input":
+            # a user's inpgen file using the coordinate directives the reader documents (&factor: coordinates are divided by it; &shift: added):
+            # the cell read from it, and the supercell files written from it (which copy the user's other lines through), read back
+            from phonopy import Phonopy
+            from phonopy.interface.calculator import read_crystal_structure, write_supercells_with_displacements
+
+            rng = np.random.default_rng(c["seed"])
+            cd = crystals.make(**c["crystal"])
+            cell0 = crystals.to_atoms(cd)
+            from phonopy.structure.atoms import symbol_map
+
+            fac = [float(v) for v in rng.integers(2, 7, 3)] if c["factor"] else None
+            sh = [float(v) for v in rng.integers(-2, 3, 3) / 8.0] if c["shift"] else None
+            L = np.array(cell0.cell) / 0.529177  # bohr
+            x = np.array(cell0.scaled_positions)
+            coords = (x - (np.array(sh) if sh else 0.0)) * (np.array(fac) if fac else 1.0)
+            lines = ["harness test cell", ""] + ["%.12f %.12f %.12f    ! a%d" % (tuple(v) + (i + 1,)) for i, v in enumerate(L)] + ["1.0   ! aa", "1.0 1.0 1.0   ! scale", "",
+                     "%d ! num atoms" % len(cell0)]
+            lines += ["%d %.12f %.12f %.12f" % ((symbol_map[s_],) + tuple(v)) for s_, v in zip(cell0.symbols, coords)]
+            if fac:
+                lines.append("&factor %g %g %g /" % tuple(fac))
+            if sh:
+                lines.append("&shift %g %g %g /" % tuple(sh))
+            lines += ["", "&comp kmax=4.0 gmax=12.0 /", "&kpt div1=2 div2=2 div3=2 /", "&end /"]
+            cwd = os.getcwd()
+            os.chdir(tmp)
+            try:
+                open("fleur_user.in", "w").write("\n".join(lines) + "\n")
+                cell_r, info = read_crystal_structure("fleur_user.in", interface_mode="fleur")
+                feat = dict(interface="fleur", factor=fac, shift=sh, natom=len(cell0))
+                obs["fleur_inputs"] = obs.get("fleur_inputs", 0) + 1
+                from phonopy.structure.atoms import PhonopyAtoms as _PA
+
+                cell_b = _PA(cell=L, scaled_positions=x, symbols=list(cell0.symbols))  # (the interface's length unit is the bohr)
+                for kind, msg in compare_cells(cell_b, cell_r, 9, "fleur"):
+                    bad("structure_" + kind, "fleur: user input with &factor %s &shift %s: the cell read differs from the one described: %s" % (fac, sh, msg), **feat)
+                ph = Phonopy(cell_r, supercell_matrix=np.diag([2, 1, 1]), log_level=0)
+                ph.generate_displacements(distance=0.03)
+                disp = list(ph.supercells_with_displacements[:2])
+                write_supercells_with_displacements("fleur", ph.supercell, disp, info, additional_info={"supercell_matrix": np.diag([2, 1, 1])})
+                want = [("supercell", ph.supercell)] + [("displaced %d" % (i + 1), d) for i, d in enumerate(disp)]
+                files = sorted(f_ for f_ in os.listdir(".") if f_.startswith("supercell") and f_.endswith(".in"))
+                got_cells = []
+                for f_ in files:
+                    txt = open(f_).read()
+                    try:
+                        got_cells.append((f_, adapt_and_read("fleur", os.path.join(tmp, f_), list(ph.supercell.symbols)), decimals_of(txt)))
+                    except Exception as e:
+                        bad("dispatch_unreadable", "fleur: %s written from a user input with &factor %s &shift %s cannot be read back: %s: %s" % (f_, fac, sh, type(e).__name__, str(e)[:160]), file=f_, **feat)
+                obs["fleur_input_files"] = obs.get("fleur_input_files", 0) + len(got_cells)
+                for label, wc in want:
+                    best = None
+                    for f_, rc_, dec_ in got_cells:
+                        pr_ = compare_cells(wc, rc_, dec_, "fleur")
+                        if best is None or len(pr_) < len(best[1]):
+                            best = (f_, pr_)
+                        if not pr_:
+                            break
+                    if best is not None and best[1]:
+                        bad("dispatch_" + best[1][0][0], "fleur, user input with &factor %s &shift %s: no written file describes the %s; closest %s: %s" % (fac, sh, label, best[0], best[1][0][1][:300]), what=label, **feat)
+            finally:
+                os.chdir(cwd)
+            return {"viol": viol, "nontrivial": True, "key": "fleur_input|%s|%s|%s" % (c["crystal"]["name"], c["factor"], c["shift"]), "obs": obs, "evals": 3,
+                    "sample": {"kind": "fleur_input", "crystal": c["crystal"], "factor": fac, "shift": sh}}
 
         if c["kind"] == "dispatch":
             from phonopy import Phonopy
